@@ -677,7 +677,7 @@ func init() {
 	register(&propertySpec{
 		ID:      "C05",
 		Explain: "Static MOD (may-modify) analysis for the last clause of C05 only: neither the pattern, the data nor the caller's initial bindings are modified by matching. Soundness and completeness of matching itself live in the sheens dependency and quantify over data: not decided.",
-		Rules:   []ruleFn{ruleModPure, ruleISliceLen, ruleCastFresh, ruleLoopExhaust("C05"), ruleBindPresence("C05"), ruleCastAllInputs, ruleCastNumbers, ruleIdxCanon("C05")},
+		Rules:   []ruleFn{ruleIdxEmptyAll("C05"), ruleModPure, ruleISliceLen, ruleCastFresh, ruleLoopExhaust("C05"), ruleBindPresence("C05"), ruleCastAllInputs, ruleCastNumbers, ruleIdxCanon("C05")},
 	})
 }
 
